@@ -21,7 +21,7 @@ RULE = ("A real Zeroconf registers a service (v4/v6/dual/multi-address, custom T
         "missing; flush bit exactly on non-PTR records); conflict before the last probe check => NonUniqueNameException or first "
         "free '-N' name, re-probed, conflicting name never announced/answered; the same through the blocking register_service of "
         "a Zeroconf() with its own loop thread, in real time (counts, order, content, outcome) (NonUniqueNameException when no '-N' name fits a "
-        "label: instance labels of 61..63 bytes are generated); an expired-but-unpurged cached copy of the conflicting pointer is "
+        "label: instance labels of 61..63 bytes are generated); in a quarter of the injected conflicts the other owner spells the name(s) in another ASCII letter case (same instance name); an expired-but-unpurged cached copy of the conflicting pointer is "
         "one of the start states; registry holds each name once. Distinct = "
         "(variant, conflict window, rename, chain length, address family, layout) classes.")
 ASSUMPTIONS = ["conflict arriving within 1 ms of the last probe instant may be either detected or missed (same-instant ordering)"]
@@ -75,10 +75,17 @@ def gen_scenario(rng: random.Random) -> Dict[str, Any]:
         # the cache still holds an expired copy of the conflicting pointer that the 10 s purge has not removed yet (it is no
         # conflict by itself); the conflicting record heard while probing then refreshes that entry instead of creating one
         sc["stale_copy"] = (not sc["prepopulated"]) and rng.random() < 0.25
+        # the other owner spells the name in another letter case (ASCII letters only): names compare case-insensitively, it is
+        # the same instance name
+        sc["recase"] = rng.random() < 0.25
     elif variant == "peer":
         sc["delay"] = rng.choice([0.0, 1.0, 30.0, 60.0, 85.0, 120.0, 150.0])   # one-way; a probe reply is back within 300 ms < 350 ms
         sc["chain"] = rng.choice([0, 0, 1])
     return sc
+
+
+def ascii_swapcase(name: str) -> str:
+    return "".join(c.swapcase() if ("a" <= c <= "z" or "A" <= c <= "Z") else c for c in name)
 
 
 def run_scenario(res: Result, seed: int) -> None:
@@ -86,6 +93,7 @@ def run_scenario(res: Result, seed: int) -> None:
     rng = random.Random(seed)
     sc = gen_scenario(rng)
     s: Svc = sc["svc"]
+    respell = ascii_swapcase if sc.get("recase") else (lambda n: n)
     res.evaluations += 1
     desc = {k: (v.brief() if isinstance(v, Svc) else v) for k, v in sc.items()}
 
@@ -120,13 +128,13 @@ def run_scenario(res: Result, seed: int) -> None:
                 # the purge runs every 10 s from the start of the engine; a pointer (TTL floor 1125 s = 112.5 periods) heard
                 # half a second after a purge expires 5.5 s after one and is then left in the cache for 4.5 s
                 await sim.sleep_until_ms(t_engine + 10000.0 + 500.0)
-                sim.net.inject_now(host, R.build_response([(("PTR", s.type, (s.name,)), 1, False)], id_=6), ("10.0.0.9", 5353))
+                sim.net.inject_now(host, R.build_response([(("PTR", s.type, (respell(s.name),)), 1, False)], id_=6), ("10.0.0.9", 5353))
                 await sim.sleep_ms(1125000.0 + 1.0)
             if sc["variant"] == "inject":
                 for nm in taken[1:]:
-                    sim.net.inject_now(host, R.build_response([(("PTR", s.type, (nm,)), 4500, False)], id_=7), ("10.0.0.9", 5353))
+                    sim.net.inject_now(host, R.build_response([(("PTR", s.type, (respell(nm),)), 4500, False)], id_=7), ("10.0.0.9", 5353))
                 if sc.get("prepopulated"):
-                    sim.net.inject_now(host, R.build_response([(("PTR", s.type, (s.name,)), 4500, False)], id_=8), ("10.0.0.9", 5353))
+                    sim.net.inject_now(host, R.build_response([(("PTR", s.type, (respell(s.name),)), 4500, False)], id_=8), ("10.0.0.9", 5353))
                     await sim.sleep_ms(rng.choice([0, 5000]))
             await sim.sleep_ms(rng.choice([0, 3, 1000]))
             info = R.make_info(s)
@@ -153,7 +161,7 @@ def run_scenario(res: Result, seed: int) -> None:
             out["mark"] = len(sim.net.trace)
             if sc["variant"] == "inject" and not sc.get("prepopulated"):
                 delta = sc["delta"]
-                data = R.build_response([(("PTR", s.type, (s.name,)), 4500, False)], id_=9)
+                data = R.build_response([(("PTR", s.type, (respell(s.name),)), 4500, False)], id_=9)
                 if delta < 0:
                     sim.net.inject_now(host, data, ("10.0.0.9", 5353))   # just before registering (|delta| irrelevant once cached)
                 else:
